@@ -137,6 +137,9 @@ func (s *scStart) Configure(w *World) {
 	if s.prop == "C02" && c.Metadata == "file" && t.Draw(4, nil) == 0 {
 		s.fault = "file-read-error" // C02 too: a checkpoint file that exists but cannot be read must not be taken for "no checkpoint"
 	}
+	if s.prop == "C02" && c.Metadata == "couchbase" && c.Extra["backend"] != "custom" && t.Draw(6, nil) == 0 {
+		s.fault = "load-error" // likewise an error status replied to a checkpoint read (scripted in BeforeStep)
+	}
 	if s.fault == "file-read-error" {
 		fileAll = true
 		w.disk.failRead = Pick(t, []string{"eio", "eacces", "emfile"}, nil)
@@ -361,7 +364,7 @@ func (s *scStart) BeforeStep(w *World) {
 		}
 		return
 	}
-	if s.prop != "C15" || s.faultN > 0 {
+	if !(s.prop == "C15" || s.prop == "C02" && s.fault == "load-error") || s.faultN > 0 {
 		return
 	}
 	want := map[string]memd.CmdCode{"load-error": memd.CmdSubDocMultiLookup, "load-silent": memd.CmdSubDocMultiLookup, "seqnos-error": memd.CmdGetAllVBSeqnos,
